@@ -160,6 +160,15 @@ def _is_aligned_square_matrices(xss: Sequence[Sequence[Sequence[float]]]) -> boo
     return ss[0, 0] >= 2 and ss[0, 0] == ss[0, 1] and cast(bool, np.all(ss == ss[0]))
 
 
+def _check_real_matrices(xss: Sequence[Sequence[Sequence[float]]], name: str) -> None:
+    """The instruction stores real matrices: an entry with a non-zero imaginary
+    part would silently lose it."""
+    for xs in xss:
+        a = np.asarray(xs)
+        if np.iscomplexobj(a) and np.any(a.imag != 0):
+            raise ValueError(f"{name} must be real matrices.")
+
+
 def PauliNoise(
     pauli_list: Sequence[Sequence[int]],
     prob_list: Sequence[float],
@@ -315,6 +324,7 @@ def ProbabilisticNoise(
         raise ValueError("The sum of prob_list must be less than or equal to 1.")
 
     qubit_count = _get_qubit_count(gate_matrices)
+    _check_real_matrices(gate_matrices, "gate_matrices")
     _prob_list, _gate_matrices = _get_prob_and_matrix(
         qubit_count, prob_list, gate_matrices
     )
@@ -363,6 +373,7 @@ def KrausNoise(
         raise ValueError("kraus_list cannot be empty.")
 
     qubit_count = _get_qubit_count(kraus_list)
+    _check_real_matrices(kraus_list, "kraus_list")
     _check_valid_qubit_indices(qubit_count, qubit_indices)
 
     return GateNoiseInstruction(
